@@ -11,7 +11,7 @@
                     over m (ideal signatures: unforgeability, one meaning per byte string). *)
 From Coq Require Import List String Bool NArith ZArith.
 Import ListNotations.
-From VF Require Import common.Json gen.Gen_C07 C07.Model C07.Proofs C07.ProofsRT.
+From VF Require Import common.Json gen.Gen_C07 C07.Model C07.Proofs C07.ProofsRT C07.StrictModel C07.ProofsStrict.
 Open Scope string_scope.
 Open Scope list_scope.
 
@@ -165,22 +165,62 @@ Theorem di_domain_challenge_asis_refuted :
 Proof. split; [vm_compute; reflexivity|vm_compute; discriminate]. Qed.
 Print Assumptions di_domain_challenge_asis_refuted.
 
-(* ---- strict mode (validator.mapsHaveSameStructure).  AS FOUND an undefined property inside an element of an array
-        of two or more elements was not noticed: the document and its compaction (the undefined member dropped)
-        compare as "same structure".  Fixed in /repo ("fix: strict JSON-LD validation compares the objects inside
-        arrays"); the repaired comparison rejects the witness. ---- *)
+(* ---- STRICT MODE, FULL STATEMENT (validator.mapsHaveSameStructure as repaired).  For every context (dfn: which
+        terms it defines; "id" is a keyword alias) and every compaction that, when it succeeds, refuses non-string ids
+        and drops exactly the members the context does not define (at every depth): a document (member names unique in
+        every object, as in any decoded JSON) that carries an undefined member ANYWHERE - in a nested object, in an
+        element of an array of any length, in an element that is otherwise id-only (it compacts to a plain string), in
+        arrays nested in arrays - is rejected in strict mode. ---- *)
+Theorem strict_rejects :
+  forall (dfn : string -> bool), dfn "id" = true ->
+  forall (compact : obj -> option json) (o : obj),
+    (forall j, compact o = Some j -> ids_ok (JObj o) = true /\ j = JObj (dropm dfn o)) ->
+    uniq (JObj o) = true -> has_undef dfn (JObj o) = true ->
+    strict_ok SFixed o (compact o) = false.
+Proof. exact strict_rejects_doc. Qed.
+Print Assumptions strict_rejects.
+
+(* the compaction hypothesis is satisfiable: the executable instance *)
+Theorem strict_compaction_instance :
+  forall dfn o j, compact_inst dfn o = Some j -> ids_ok (JObj o) = true /\ j = JObj (dropm dfn o).
+Proof. exact compact_inst_spec. Qed.
+Print Assumptions strict_compaction_instance.
+
+(* AS FOUND an undefined property inside an element of an array of two or more elements was not noticed (arrays
+   skipped; fixed by /repo 4a77a34), and after that fix still not inside an array nested in an array next to a
+   sibling (compaction flattens [[X,Y],[]] to [X,Y]; fixed by /repo 09420bd).  Both witnesses are accepted by the
+   old comparisons and rejected by the current one. *)
+Definition sw_dfn (k : string) : bool := negb (String.eqb k "zz_undef").
 Definition strict_witness : obj :=
   [("@context", JStr "c");
    ("credentialSubject", JObj [("items", JArr [JObj [("beta", JStr "b1"); ("zz_undef", JStr "x")]; JObj [("beta", JStr "b2")]])])].
-Definition strict_witness_compacted : obj :=
+Definition strict_witness_nested : obj :=
   [("@context", JStr "c");
-   ("credentialSubject", JObj [("items", JArr [JObj [("beta", JStr "b1")]; JObj [("beta", JStr "b2")]])])].
+   ("a1", JArr [JArr [JObj [("a2", JStr "x"); ("zz_undef", JStr "u")]; JObj [("a2", JStr "y")]]; JArr []])].
+Definition strict_witness_nested_compacted : obj :=
+  [("@context", JStr "c"); ("a1", JArr [JObj [("a2", JStr "x")]; JObj [("a2", JStr "y")]])].
+(* two bare-id subjects, one of them given an undefined claim: the element compacts to the plain id string *)
+Definition strict_witness_bare_id : obj :=
+  [("@context", JStr "c");
+   ("credentialSubject", JArr [JObj [("id", JStr "did:a"); ("zz_undef", JBool true)]; JObj [("id", JStr "did:b")]])].
 
 Theorem strict_arrays_asis_refuted :
-  same_structure AsIs strict_witness strict_witness_compacted = true /\
-  same_structure Fixed strict_witness strict_witness_compacted = false.
-Proof. split; vm_compute; reflexivity. Qed.
+  strict_ok SAsIs strict_witness (compact_inst sw_dfn strict_witness) = true /\
+  strict_ok SFixed strict_witness (compact_inst sw_dfn strict_witness) = false /\
+  strict_ok SFix1 strict_witness_nested (Some (JObj strict_witness_nested_compacted)) = true /\
+  strict_ok SFixed strict_witness_nested (Some (JObj strict_witness_nested_compacted)) = false /\
+  strict_ok SAsIs strict_witness_bare_id (compact_inst sw_dfn strict_witness_bare_id) = true /\
+  strict_ok SFixed strict_witness_bare_id (compact_inst sw_dfn strict_witness_bare_id) = false.
+Proof. vm_compute. repeat split. Qed.
 Print Assumptions strict_arrays_asis_refuted.
+
+Example strict_rejects_nonvacuous :
+  uniq (JObj strict_witness_bare_id) = true /\ has_undef sw_dfn (JObj strict_witness_bare_id) = true /\
+  compact_inst sw_dfn strict_witness_bare_id =
+    Some (JObj [("@context", JStr "c"); ("credentialSubject", JArr [JObj [("id", JStr "did:a")]; JObj [("id", JStr "did:b")]])]) /\
+  (* and a document without undefined members passes *)
+  strict_ok SFixed (dropm sw_dfn strict_witness_bare_id) (compact_inst sw_dfn (dropm sw_dfn strict_witness_bare_id)) = true.
+Proof. vm_compute. repeat split. Qed.
 
 (* ---- non-vacuity: a concrete instance of every parameter (the canonicaliser is a finite injective table) in which
         a signed document verifies, and the edited one (a claim changed) does not ---- *)
